@@ -17,12 +17,14 @@ import (
 
 	evmtypes "github.com/tharsis/ethermint/x/evm/types"
 
+	govtypes "github.com/cosmos/cosmos-sdk/x/gov/types"
 	"github.com/teleport-network/teleport/syscontracts"
 	agentcontract "github.com/teleport-network/teleport/syscontracts/xibc_agent"
 	bscclient "github.com/teleport-network/teleport/x/xibc/clients/light-clients/bsc/types"
 	ethclient "github.com/teleport-network/teleport/x/xibc/clients/light-clients/eth/types"
 	xibctmtypes "github.com/teleport-network/teleport/x/xibc/clients/light-clients/tendermint/types"
 	tsstypes "github.com/teleport-network/teleport/x/xibc/clients/tss-client/types"
+
 	xibcclient "github.com/teleport-network/teleport/x/xibc/core/client"
 	clienttypes "github.com/teleport-network/teleport/x/xibc/core/client/types"
 	commitmenttypes "github.com/teleport-network/teleport/x/xibc/core/commitment/types"
@@ -131,6 +133,21 @@ func (e *Env) record(c *Chain, act interface{}, run func() (int, string)) int {
 	e.envN++
 	env := e.envN
 	class, errs := 0, ""
+	// client named by a client-changing act, and its consensus heights before the step
+	cname, ckind := "", ""
+	switch a := act.(type) {
+	case ActUpdate:
+		cname, ckind = string(hlib.UnHex(a.Name)), "update"
+	case ActCreateClient:
+		cname, ckind = string(hlib.UnHex(a.Name)), a.T
+	}
+	before := map[[2]uint64]bool{}
+	if ckind == "update" {
+		for _, h := range c.consensusHeights(cname) {
+			before[[2]uint64{h.RevisionNumber, h.RevisionHeight}] = true
+		}
+	}
+	e.wack = nil
 	if p, val := hlib.Catch(func() { class, errs = run() }); p {
 		class, errs = 2, "PANIC: "+val
 		if len(errs) > 160 {
@@ -138,6 +155,31 @@ func (e *Env) record(c *Chain, act interface{}, run func() (int, string)) int {
 		}
 	}
 	obs := e.observe(c, class, errs)
+	obs.Cons = [][2]string{}
+	obs.Wack = e.wack
+	e.wack = nil
+	if class == 0 && ckind != "" {
+		switch ckind {
+		case "update":
+			// the heights this update added: what the present client instance accepted itself
+			for _, h := range c.consensusHeights(cname) {
+				if !before[[2]uint64{h.RevisionNumber, h.RevisionHeight}] {
+					obs.Cons = append(obs.Cons, heightJ(h))
+					c.accept(cname, h)
+				}
+			}
+		default:
+			// create / toggle / upgrade: the new client state's own latest height (a TSS client has no consensus state).
+			// A toggle installs a NEW instance: whatever an earlier instance accepted does not count any more.
+			if ckind != "upgrade_client" {
+				c.accepted[cname] = map[[2]uint64]bool{}
+			}
+			if h, cs, found := c.clientHeight(cname); found && cs.ClientType() != exported.TSS {
+				obs.Cons = append(obs.Cons, heightJ(h))
+				c.accept(cname, h)
+			}
+		}
+	}
 	e.steps = append(e.steps, Step{Chain: c.idx, Env: env, Op: e.curOp, Act: act, Obs: obs})
 	return class
 }
@@ -223,9 +265,13 @@ func (e *Env) doUpdate(c, s *Chain, rel int, aux bool) int {
 		return 1
 	}
 	e.makeProvable(s)
-	trusted, _, found := c.clientHeight(s.name)
+	trusted, curCS, found := c.clientHeight(s.name)
 	if !found {
 		e.stat("update.skipped_noclient")
+		return 1
+	}
+	if curCS.ClientType() != exported.Tendermint {
+		e.stat("update.skipped_not_tendermint") // the peer's client is toggled to TSS at the moment
 		return 1
 	}
 	if trusted.RevisionHeight >= uint64(s.tc.LastHeader.Header.Height) {
@@ -328,6 +374,10 @@ func (e *Env) verifyOracle(c *Chain, env int, kind int, pktBz, ackBz, proof []by
 			if tm.GetLatestHeight().LT(height) {
 				return
 			}
+			// ... a consensus state the PRESENT client instance accepted itself (not one left over in the store)
+			if !c.isAccepted(name, height) {
+				return
+			}
 			var mp commitmenttypes.MerkleProof
 			if prf == nil {
 				return
@@ -360,6 +410,9 @@ func (e *Env) verifyOracle(c *Chain, env int, kind int, pktBz, ackBz, proof []by
 			}
 			// the stated height must be buried under the client's block delay
 			if latest.GetRevisionHeight()-height.GetRevisionHeight() < delay {
+				return
+			}
+			if !c.isAccepted(name, height) {
 				return
 			}
 			low = ethLow(cons.GetRoot(), contract, prf, kind == 1, p.SrcChain, p.DstChain, p.Sequence, val)
@@ -503,7 +556,7 @@ func (e *Env) opSend(op Op) {
 		ContractAddress: "",
 		CallData:        []byte{},
 		CallbackAddress: zeroAddr,
-		FeeOption:       0,
+		FeeOption:       op.FeeOpt,
 	}
 	fee := packettypes.Fee{TokenAddress: c.N, Amount: new(big.Int).SetUint64(op.Fee)}
 	value := big.NewInt(0)
@@ -515,14 +568,20 @@ func (e *Env) opSend(op Op) {
 	case "notrace":
 		ccd.TokenAddress = c.U
 		fee.TokenAddress = c.U
-	case "agent":
-		// multi-hop through the agent contract (TestCrossChainCallAgent), route 0 -> 1 -> 2 only
+	case "agent", "agent_unknown":
+		// multi-hop through the agent contract (TestCrossChainCallAgent), route 0 -> 1 -> 2 only; agent_unknown: the
+		// onward destination has no client on chain 1, so the destination callback's EVM run succeeds, emits a
+		// PacketSent log, and the packet hook FAILS in SendPacket (post-processing failure inside a callback)
 		if c.idx == 0 && op.Dst == 1 && c.A != zeroAddr {
 			x := op.Amount
 			if x == 0 {
 				x = 1
 			}
-			cd, err := agentcontract.AgentContract.ABI.Pack("send", e.chains[1].A, hexLower(c.tc.SenderAddress), e.chains[2].name, new(big.Int).SetUint64(x))
+			onward := e.chains[2].name
+			if op.Variant == "agent_unknown" {
+				onward = unknownChain
+			}
+			cd, err := agentcontract.AgentContract.ABI.Pack("send", e.chains[1].A, hexLower(c.tc.SenderAddress), onward, new(big.Int).SetUint64(x))
 			must(err)
 			ccd.TokenAddress = c.A
 			ccd.Receiver = hexLower(agentcontract.AgentContractAddress)
@@ -570,7 +629,7 @@ func (e *Env) opSend(op Op) {
 		act.Raw = e.rawOf(pk)
 		return 0, ""
 	})
-	e.stat(fmt.Sprintf("send.%s.dst%s.class%d", op.Variant, dstKind(op.Dst), class))
+	e.stat(fmt.Sprintf("send.%s.dst%s.feeopt%v.class%d", op.Variant, dstKind(op.Dst), op.FeeOpt != 0, class))
 	e.finish(c, op.Commit)
 }
 
@@ -636,7 +695,7 @@ func (e *Env) opSendMulti(op Op) {
 			ContractAddress: "",
 			CallData:        []byte{},
 			CallbackAddress: zeroAddr,
-			FeeOption:       0,
+			FeeOption:       l.FeeOpt,
 		}
 		fee := packettypes.Fee{TokenAddress: zeroAddr, Amount: big.NewInt(0)}
 		value := amt
@@ -829,6 +888,12 @@ func (e *Env) proofFor(c, s *Chain, key, other []byte, alters []string, fresh bo
 			}
 		}
 	}
+	if has(alters, "height_pretoggle") {
+		// the latest height of the client instance that existed before the last toggle / upgrade
+		if ph, ok := c.preToggle[s.name]; ok {
+			h = ph
+		}
+	}
 	k := key
 	if has(alters, "proof_other") {
 		k = other
@@ -924,6 +989,22 @@ func (e *Env) runRecv(c *Chain, rel int, bz, proof []byte, height clienttypes.He
 	e.verifyOracle(c, e.envN+1, 0, bz, nil, proof, height, signer)
 	act := &ActRecv{T: "recv", Packet: hx(bz), Proof: hx(proof), Height: heightJ(height), Signer: hs(signer), Cb: emptyCb()}
 	var observedRet *[3]interface{}
+	// what the destination callback does is an INPUT of the model: taken from a dry run of onRecvPacket on a throw-away
+	// branch (NOT from the acknowledgement the message server writes: monitor 26 compares the two)
+	dry := e.recvCallbackDryRun(c, bz)
+	if dry.applies {
+		if dry.fail {
+			act.Cb.Fail = true
+		} else if dry.unpacked {
+			act.Cb.Ret = [3]interface{}{u64(dry.code), hx(dry.result), hs(dry.message)}
+			observedRet = &[3]interface{}{dry.code, dry.result, dry.message}
+		}
+		// the sends of the callback = the PacketSent logs its EVM run EMITTED (not what the hook made of them)
+		for _, lbz := range dry.logs {
+			lp, _ := e.orc.AddDecode(lbz)
+			act.Cb.Sends = append(act.Cb.Sends, SendJ{packetJ(&lp), true})
+		}
+	}
 	class := e.record(c, act, func() (int, string) {
 		cl, res, err := e.deliver(c, e.keys[rel], msg)
 		if cl != 0 {
@@ -940,25 +1021,20 @@ func (e *Env) runRecv(c *Chain, rel int, bz, proof []byte, height clienttypes.He
 			e.sendsOf(c, evs.sends)
 			return 0, ""
 		}
-		code, result, message, _, _, ok := rawAck(evs.writes[0][1])
+		code, _, message, _, fee, ok := rawAck(evs.writes[0][1])
 		if !ok {
 			return 0, "harness: written ack does not unpack"
 		}
-		if code == 1 && message == cbFailedMsg {
-			act.Cb.Fail = true
+		e.wack = &[2]string{u64(code), u64(fee)}
+		if act.Cb.Fail {
 			e.stat("cb.fail")
 		} else {
-			act.Cb.Ret = [3]interface{}{u64(code), hx(result), hs(message)}
-			observedRet = &[3]interface{}{code, result, message}
 			e.stat("cb.ret_code" + u64(code) + "." + message)
 		}
-		if dec.DstChain == c.name {
-			act.Cb.Sends = e.sendsOf(c, evs.sends)
-			if len(evs.sends) > 0 {
-				e.stat("cb.sends_packets")
-			}
-		} else {
-			e.sendsOf(c, evs.sends)
+		// packets that really left (EventSendPacket) enter the pool
+		e.sendsOf(c, evs.sends)
+		if dec.DstChain == c.name && len(evs.sends) > 0 {
+			e.stat("cb.sends_packets")
 		}
 		return 0, ""
 	})
@@ -977,6 +1053,42 @@ func (e *Env) runRecv(c *Chain, rel int, bz, proof []byte, height clienttypes.He
 		}
 	}
 	return class
+}
+
+type cbDry struct {
+	applies, fail, unpacked bool
+	code                    uint64
+	result                  []byte
+	message                 string
+	logs                    [][]byte // packet bytes of the PacketSent logs the call emitted (only if the call returned)
+}
+
+// recvCallbackDryRun performs, on a throw-away branch of c's state, the module->contract call the message server
+// makes for a packet addressed to c (onRecvPacket) and unpacks its result.  The call reads and writes contract state
+// (and, through the packet hook, the send side of the xibc store) only, so the outcome is the one the real message meets.
+func (e *Env) recvCallbackDryRun(c *Chain, bz []byte) (d cbDry) {
+	p, err := realDecode(bz)
+	if err != nil || p.DstChain != c.name {
+		return
+	}
+	d.applies = true
+	if panicked, _ := hlib.Catch(func() {
+		cctx, _ := c.ctx().CacheContext()
+		res, err := c.tc.App.XIBCKeeper.PacketKeeper.CallPacket(cctx, "onRecvPacket", p)
+		if err != nil {
+			d.fail = true
+			return
+		}
+		d.logs = packetSentLogs(res)
+		var r packettypes.Result
+		if err := packetABI.UnpackIntoInterface(&r, "onRecvPacket", res.Ret); err != nil {
+			return
+		}
+		d.unpacked, d.code, d.result, d.message = true, r.Code, r.Result, r.Message
+	}); panicked {
+		d.fail = true
+	}
+	return
 }
 
 // ---------------------------------------------------------------------------------------------
@@ -1012,7 +1124,7 @@ func (e *Env) opRecvTss(op Op, opIdx int) {
 		}
 		dst = e.dstName(c, op.Dst)
 	}
-	p := packettypes.Packet{SrcChain: src, DstChain: dst, Sequence: op.Seq, Sender: "0xtss", CallData: []byte{}, CallbackAddress: "", FeeOption: 0}
+	p := packettypes.Packet{SrcChain: src, DstChain: dst, Sequence: op.Seq, Sender: "0xtss", CallData: []byte{}, CallbackAddress: "", FeeOption: op.Seq % 3}
 	if op.Variant == "transfer" {
 		amt := make([]byte, 32)
 		amt[31] = 5
@@ -1033,7 +1145,12 @@ func (e *Env) opRecvTss(op Op, opIdx int) {
 		// the TSS client ignores the height; MsgRecvPacket.ValidateBasic does not
 		h = clienttypes.Height{}
 	}
-	class := e.runRecv(c, op.Relayer, bz, []byte{}, h)
+	prf := []byte{}
+	if op.Mal == "proof_tssaddr" {
+		// the PUBLIC TSS address in the proof field, signed by whoever: only the SIGNER counts for a TSS client
+		prf = []byte(c.tc.SenderAcc.String())
+	}
+	class := e.runRecv(c, op.Relayer, bz, prf, h)
 	e.stat(fmt.Sprintf("recv_tss.%s%s.dstself_%v.src_%s.rel%d.class%d", op.Variant, op.Mal, op.DstSelf, op.Src, op.Relayer, class))
 	e.finish(c, op.Commit)
 }
@@ -1220,8 +1337,12 @@ func (e *Env) opAckTss(op Op, opIdx int) {
 	if op.Variant == "emptyack" {
 		abz = []byte{}
 	}
+	prf := []byte{}
+	if op.Mal == "proof_tssaddr" {
+		prf = []byte(c.tc.SenderAcc.String())
+	}
 	e.prepare(c)
-	class := e.runAck(c, op.Relayer, append([]byte{}, ent.bz...), abz, []byte{}, h)
+	class := e.runAck(c, op.Relayer, append([]byte{}, ent.bz...), abz, prf, h)
 	e.stat(fmt.Sprintf("ack_tss.%s%s.rel%d.class%d", op.Variant, op.Mal, op.Relayer, class))
 	e.finish(c, op.Commit)
 }
@@ -1306,6 +1427,73 @@ func (e *Env) opCreateClient(op Op) {
 		chains, addrs = append(chains, name), append(addrs, sender)
 	}
 	e.regStep(c, sender, chains, addrs)
+}
+
+type govContent = govtypes.Content
+
+// opToggleClient: governance ToggleClientProposal for the client of peer chain op.Peer on chain op.Chain — to a TSS
+// client (op.Type = "tss") or back to a Tendermint client anchored at the peer's latest committed header ("tm").
+// opUpgradeClient: UpgradeClientProposal, Tendermint -> Tendermint at the peer's latest committed header.
+func (e *Env) opGovClient(op Op, kind string) {
+	c := e.chains[op.Chain]
+	if op.Peer < 0 || op.Peer >= nChains || op.Peer == c.idx {
+		return
+	}
+	s := e.chains[op.Peer]
+	name := s.name
+	ck := c.tc.App.XIBCKeeper.ClientKeeper
+	cur, found := ck.GetClientState(c.ctx(), name)
+	if !found {
+		e.stat(kind + ".skipped_noclient")
+		return
+	}
+	if cur.ClientType() == exported.Tendermint {
+		c.savedTM[name] = cur
+	}
+	toTss := op.Type == "tss" && kind == "toggle_client"
+	var ncs exported.ClientState
+	var ncons exported.ConsensusState
+	if toTss {
+		ncs, ncons = &tsstypes.ClientState{TssAddress: c.tc.SenderAcc.String()}, &tsstypes.ConsensusState{}
+	} else {
+		saved, ok := c.savedTM[name].(*xibctmtypes.ClientState)
+		if !ok {
+			e.stat(kind + ".skipped_no_tm_template")
+			return
+		}
+		e.makeProvable(s)
+		cp := *saved
+		cp.LatestHeight = s.tc.LastHeader.GetHeight().(clienttypes.Height)
+		ncs, ncons = &cp, s.tc.LastHeader.ConsensusState()
+	}
+	if h, _, ok := c.clientHeight(name); ok && cur.ClientType() == exported.Tendermint {
+		c.preToggle[name] = h
+	}
+	e.prepare(c)
+	class := e.record(c, ActCreateClient{T: kind, Name: hs(name), Tss: toTss}, func() (int, string) {
+		c.dirty = true
+		var content govContent
+		var err error
+		if kind == "toggle_client" {
+			content, err = clienttypes.NewToggleClientProposal("toggle client", "harness", name, ncs, ncons)
+		} else {
+			content, err = clienttypes.NewUpgradeClientProposal("upgrade client", "harness", name, ncs, ncons)
+		}
+		if err != nil {
+			return 1, "harness: " + errText(err)
+		}
+		if err := content.ValidateBasic(); err != nil {
+			return 1, errText(err)
+		}
+		cctx, write := c.ctx().CacheContext()
+		if err := xibcclient.NewClientProposalHandler(ck)(cctx, content); err != nil {
+			return 1, errText(err)
+		}
+		write()
+		return 0, ""
+	})
+	e.stat(fmt.Sprintf("%s.to_%s.class%d", kind, op.Type, class))
+	e.finish(c, op.Commit)
 }
 
 var _ = bytes.Equal
